@@ -104,6 +104,8 @@ def _catalogue():
     C['big.hotspots'] = (1, 1, lambda v, r, x: focal.hotspots(r[0], K3), True, 'bigelev')
     C['big.generate_terrain'] = (1, 1, lambda v, r, x: xrspatial.generate_terrain(r[0], x_range=(0, 100), y_range=(0, 50), seed=5, zfactor=4000), False, 'bigzeros')
     C['big.perlin'] = (1, 1, lambda v, r, x: xrspatial.perlin(r[0], freq=(4, 3), seed=9), False, 'bigzeros')
+    # zones of more than 65536 cells with values of mixed magnitude: a reduction whose partition follows the thread count shows in the last digits
+    C['big.zonal.stats'] = (2, 2, lambda v, r, x: zonal.stats(r[0], r[1], stats_funcs=[['sum', 'mean'], ['mean', 'std', 'var', 'count']][v]), False, 'bigzones')
     C['local.cell_stats'] = (3, 3, lambda v, r, x: local.cell_stats(xr.Dataset({'a': r[0], 'b': r[1], 'c': r[2]}), **[{}, {'func': 'max'}, {'func': 'std', 'data_vars': ['c', 'a']}][v]), False, 'small')
     C['local.combine'] = (3, 2, lambda v, r, x: local.combine(xr.Dataset({'a': r[0], 'b': r[1], 'c': r[2]}), **[{}, {'data_vars': ['b', 'a']}][v]), False, 'small')
     C['local.rank'] = (3, 1, lambda v, r, x: local.rank(xr.Dataset({'a': r[0], 'b': r[1], 'ref': r[2]}), 'ref'), False, 'rank')
@@ -149,6 +151,8 @@ def build(spec, seed):
         H, W = int(rng.integers(130, 171)), int(rng.integers(130, 171))
     if kind == 'bigzeros':
         H, W = int(rng.integers(256, 281)), int(rng.integers(256, 281))
+    if kind == 'bigzones':
+        H, W = int(rng.integers(300, 331)), int(rng.integers(300, 331))
     small_extent = nm in ('proximity', 'allocation', 'direction') and v % 3 == 2
     if small_extent:
         H, W = int(rng.integers(3, 6)), int(rng.integers(3, 6))          # a small raster whose own extent is the search radius
@@ -167,10 +171,13 @@ def build(spec, seed):
         elif kind == 'band': a = rng.integers(0, 200, (H, W)).astype('float64')
         elif kind == 'targets': a = np.where(rng.random((H, W)) < 0.3, rng.integers(1, 4, (H, W)), 0).astype('float64')
         elif kind == 'zones': a = rng.integers(0, 4, (H, W)).astype('float64')
+        elif kind == 'bigzones':
+            a = (rng.random((H, W)) < 0.1).astype('float64') if i == 0 else rng.standard_normal((H, W)) * 10.0 ** rng.integers(-6, 7, (H, W))
         elif kind == 'rank': a = rng.integers(1, 3, (H, W)).astype('float64') if i == 2 else rng.integers(0, 6, (H, W)).astype('float64')
         else: a = np.zeros((H, W))
         d_ = dt
         if kind == 'rank' and i == 2: d_ = 'int64'
+        if kind == 'bigzones': d_ = 'int64' if i == 0 else ('float64' if np.dtype(dt).kind != 'f' else dt)
         arr = a.astype(d_)
         if np.dtype(d_).kind == 'f' and kind in ('elev', 'small', 'band') and nm not in ('viewshed', 'natural_breaks') and not nm.startswith('local.') and rng.random() < 0.4:
             arr[rng.random((H, W)) < 0.1] = np.nan
@@ -186,7 +193,15 @@ def build(spec, seed):
                 if 2 <= len(c2[0]) * len(c2[1]) <= 6:          # C11 is not about chunking; many tiny blocks only cost time
                     ch = c2; break
             data = da.from_array(arr, chunks=ch)
-        rasters.append(xr.DataArray(data, dims=['y', 'x'], coords={'y': ys, 'x': xs}, attrs={'res': (cell, cell)}, name='r%d' % i))
+        attrs = {'res': (cell, cell)}
+        # metadata a raster read from a file carries (rioxarray): the library is not documented to act on any of it, and anything it
+        # remembers from one raster's metadata must not leak into a later call
+        arng = _stable_rng('C11attrs', nm, dt, dk, seed, i)
+        if arng.random() < 0.5:
+            fv = float(arr.flat[int(arng.integers(0, arr.size))]) if arng.random() < 0.6 else -9999.0
+            if fv == fv:
+                attrs.update({'_FillValue': fv, 'nodatavals': (fv,), 'scale_factor': 1.0, 'add_offset': 0.0})
+        rasters.append(xr.DataArray(data, dims=['y', 'x'], coords={'y': ys, 'x': xs}, attrs=attrs, name='r%d' % i))
     aux = dict(cell=cell, diag=float(np.hypot((H - 1) * cell, (W - 1) * cell)) * (1.0 if rng.random() < 0.3 else 1.25), start=(float(ys[0]), float(xs[0])), goal=(float(ys[-1]), float(xs[-1])), vx=float(xs[W // 2]), vx2=float(xs[1]), vy=float(ys[H // 2]))
     return (lambda: f(v, rasters, aux)), rasters
 
